@@ -20,6 +20,7 @@ import (
 	sdkmath "cosmossdk.io/math"
 	"github.com/cosmos/cosmos-sdk/baseapp"
 	"github.com/cosmos/cosmos-sdk/codec"
+	"github.com/cosmos/cosmos-sdk/telemetry"
 	"github.com/cosmos/cosmos-sdk/testutil/mock"
 	simtestutil "github.com/cosmos/cosmos-sdk/testutil/sims"
 	sdk "github.com/cosmos/cosmos-sdk/types"
@@ -107,6 +108,14 @@ func Logger() log.Logger {
 	return log.NewLogger(io.Discard, log.LevelOption(l))
 }
 
+// Telemetry switches the SDK's telemetry on for this process when VERIF_TELEMETRY=1 (a node with `telemetry.enabled = true` in
+// app.toml): node configuration, not consensus state — C19 replays the same history with it on and off.
+func Telemetry() {
+	if os.Getenv("VERIF_TELEMETRY") == "1" {
+		_, _ = telemetry.New(telemetry.Config{ServiceName: "verif", Enabled: true, PrometheusRetentionTime: 60})
+	}
+}
+
 func Boot(cfg Config) (env *Env, err error) {
 	defer func() {
 		if r := recover(); r != nil {
@@ -114,6 +123,7 @@ func Boot(cfg Config) (env *Env, err error) {
 		}
 	}()
 	SetPrefixes()
+	Telemetry()
 	dir, err := os.MkdirTemp("", "orbverif")
 	if err != nil {
 		return nil, err
